@@ -338,6 +338,17 @@ class Api:
         out += self.cx.branch(s1, res == -1, lambda t: k(res, t.assume(e >= 1).with_exc(e)), lambda t: [])
         return out
 
+    def f_PyObject_IsTrue(self, a, st, k):
+        """truth value: 1 / 0, or -1 with an exception; a function of the object; may run __bool__ / __len__ (A-HAVOC)"""
+        st = self.nonnull(st, a[0], "PyObject_IsTrue")
+        s1 = self.havoc(st, "PyObject_IsTrue")
+        res = z3.Function("truth_result", Obj, INT)(a[0])
+        out = []
+        out += self.cx.branch(s1, res >= 0, lambda t: k(res, t.assume(res <= 1)), lambda t: [])
+        e = self.cx.fresh("exc", INT)
+        out += self.cx.branch(s1, res == -1, lambda t: k(res, t.assume(e >= 1).with_exc(e)), lambda t: [])
+        return out
+
     def f_PySequence_Contains(self, a, st, k):
         st = self.nonnull(st, a[0], "PySequence_Contains")
         s1 = self.havoc(st, "PySequence_Contains")
